@@ -112,8 +112,11 @@ SPEC = dict(
          "8-40 malformed requests (truncated / bit-flipped / spliced with 4 GiB msgpack and 2^63 protobuf length prefixes, "
          "2000-22000-deep msgpack/JSON/protobuf nesting, odd JSON and msgpack members; gzip/zstd well-formed, truncated, corrupted, "
          "mis-announced; wrong and odd content types; odd samplerate/event-time headers) on /1/events, /1/batch, /v1/traces, "
-         "/v1/logs through the real mux and middleware, and on the gRPC trace/logs Export handlers in process, each under recover "
-         "and a 10 s timeout; non-trivial = answered.  Distinct by transcript hash.",
+         "/v1/logs through the real mux and middleware, and on the gRPC trace/logs Export handlers, executed in a worker process "
+         "(address space capped at 3 GiB) under recover and a 6 s watchdog: a recovered or unrecovered panic, a dead worker "
+         "(fatal error: out of memory / stack overflow) or a request that does not return is a monitor failure whose signature "
+         "names the endpoint and the busy/faulting frame, with the request bytes as replay; non-trivial = answered.  "
+         "Distinct by transcript hash.",
     trusted_base=["gopkg.in/yaml.v3 decoding and the config loader as called (newFileConfig / NewConfig)",
                   "config.MockConfig, transmit.MockTransmission, sharder.MockSharder, metrics.NullMetrics, a logger that turns "
                   "'… Exiting.' into a panic (part A) / records panicCatcher's report (part B)",
@@ -127,13 +130,14 @@ SPEC = dict(
              "dereference, os.Exit, NewTicker(d<=0) in a goroutine) as explicit outcomes.  Theorems: the full statement "
              "(accepted => no crash) is REFUTED for the code as it is with nine machine-checked witnesses, one per panic site, "
              "each reproduced end to end on the real code (YAML file -> config.NewConfig accepts -> real SamplerFactory/Start/"
-             "GetSampleRate panics, exits or kills a child process); valid_config_no_panic_partial holds under the exact extra "
-             "hypotheses (Benign) the validator does not enforce; valid_config_no_panic_fixed proves the full statement for the "
+             "GetSampleRate panics, exits or kills a child process); valid_config_no_panic_partial holds under the extra "
+             "hypotheses (Benign) the validator does not enforce (exact for leaf samplers: leaf_no_crash_iff_benign); "
+             "valid_config_no_panic_fixed proves the full statement for the "
              "proposed repairs for every metadata table and every later answer of the third-party samplers (model parameter "
              "`fixed`, oracle `def variant`).  Model tied to the code by replaying generated rules files on the real loader, "
              "validator, factory and samplers and comparing every verdict/outcome/rate.  Separately, as FUZZING and not as a theorem, "
              "a malformed-bytes stream on every HTTP endpoint and the gRPC Export handlers of a real Router: any panic or hang is "
-             "reported with the request bytes as replay.",
+             "reported with the request bytes as replay (three found: unbounded allocations from msgpack length headers).",
         note="PARTIAL by nature: third-party decoders (msgp, jsoniter, protobuf, gzip, zstd, husky) and the HTTP/gRPC stacks are not "
              "modelled; the request half is sampled fuzzing only.  Trusted: Lean kernel; the differential check (sampled); "
              "YAML decoding; the harness' classification of panics.  Peer traffic and the main (non-rules) configuration are out of scope.",
